@@ -103,3 +103,52 @@ package otel
 //@   ensures [C20.otel.persist.end] cnt(endCall) == 1 && payload(lastarg(endCall, 0, Iface)) == spanOf(ctx) && cnt(startCall) == 0
 //@   ensures [C20.otel.persist.errors] cnt(addCall) == ite(err != nil, 1, 0) && (err != nil ==> lastarg(addCall, 0, Iface) == o.persistErrors && lastarg(addCall, 2) == 1)
 //@   ensures [C20.otel.persist.duration] cnt(recordCall) == 1 && lastarg(recordCall, 0, Iface) == o.persistDuration
+
+// ---------------------------------------------------------------- construction
+//@ func otel.Tracer(name, opts)
+//@   trusted
+//@   effect pure
+//@   ensures result != nil
+//@ func otel.Meter(name, opts)
+//@   trusted
+//@   effect pure
+//@   ensures result != nil
+//@ method metric.Meter.Int64Counter(m, name, opts)
+//@   effect opaque
+//@   ensures err == nil ==> result0 != nil
+//@ method metric.Meter.Float64Histogram(m, name, opts)
+//@   effect opaque
+//@   ensures err == nil ==> result0 != nil
+//@ func metric.WithDescription(d)
+//@   trusted
+//@   effect pure
+//@ func metric.WithUnit(u)
+//@   trusted
+//@   effect pure
+//@ method trace.TracerProvider.Tracer(p, name, opts)
+//@   effect opaque
+//@   ensures result != nil
+//@ method metric.MeterProvider.Meter(p, name, opts)
+//@   effect opaque
+//@   ensures result != nil
+// Options only replace the tracer / meter (by non-nil ones).
+//@ callback Option(fn, o)
+//@   effect fields o tracer meter
+//@   effectstruct Observability
+//@   ensures o.tracer != nil && o.meter != nil
+//@ func WithTracerProvider$1
+//@   props C20
+//@   requires o != nil && provider != nil && o.meter != nil
+//@   ensures [C20.otel.opt.tracer] o.tracer != nil && o.meter == old(o.meter)
+//@ func WithMeterProvider$1
+//@   props C20
+//@   requires o != nil && provider != nil && o.tracer != nil
+//@   ensures [C20.otel.opt.meter] o.meter != nil && o.tracer == old(o.tracer)
+// New: the value it returns satisfies ObsInv, the precondition of the six hooks.
+//@ func New
+//@   props C20
+//@   requires forall k int :: {opts[k]} 0 <= k && k < len(opts) ==> opts[k] != nil
+//@   loop 1 invariant [idx] rangeindex < len(opts) && -1 <= rangeindex
+//@   loop 1 invariant [obs] obs != nil && fresh(obs) && obs.tracer != nil && obs.meter != nil
+//@   ensures [C20.otel.new] err == nil ==> result0 != nil && ObsInv(result0)
+//@   ensures [C20.otel.new.err] err != nil ==> result0 == nil
